@@ -44,8 +44,11 @@ let hexval c = match c with '0'..'9' -> Char.code c - 48 | 'a'..'f' -> Char.code
 let string_of_hex h =
   if h = "-" then "" else
   String.init (String.length h / 2) (fun i -> Char.chr (16 * hexval h.[2*i] + hexval h.[2*i+1]))
+let gen_bytes_fwd_ref : (string -> string) ref = ref (fun _ -> "")
+let gen_bytes_fwd h = !gen_bytes_fwd_ref h
 let hex_of_bytes b = let s = string_of_bytes b in if s = "" then "-" else hex_of_string s
 let bytes_of_hex h = bytes_of_string (string_of_hex h)
+let key_of h = if String.length h > 2 && h.[1] = ':' then bytes_of_string (gen_bytes_fwd h) else bytes_of_hex h
 
 (* content digest shared with the harness: length + Adler-32 style sums *)
 let digest (s : string) : string =
@@ -67,6 +70,7 @@ let parse_chunk (c : string) : string =
      | [_; s; l] -> gen_bytes (int_of_string s) (int_of_string l)
      | _ -> failwith "bad G chunk")
   else string_of_hex c
+let () = gen_bytes_fwd_ref := parse_chunk
 let parse_chunks (s : string) : bytes list =
   if s = "" || s = "." then [] else List.map (fun c -> bytes_of_string (parse_chunk c)) (String.split_on_char ',' s)
 
@@ -168,12 +172,57 @@ let settings_str (data : bytes) =
   match dec_settings data with
   | Some ((v, pre), nn) -> Printf.sprintf "settings:v=%s,pre=%b,n=%s" (decimal_of_n v) pre (decimal_of_n nn)
   | None -> "settings:raw:" ^ hex_of_bytes data
+(* summaries of log segments and snapshots through the MODEL's readers; the harness prints the
+   same lines through its independent reader of the documented format *)
+let op_summary (payload : bytes) : string =
+  match dec_op payload with
+  | Err _ -> "bad"
+  | Ok (RPut (k, h, sz)) -> Printf.sprintf "put:%s:%s:%s" (hex_of_bytes k) (hex_of_bytes h) (decimal_of_n sz)
+  | Ok (RRemove ks) -> "rm:" ^ String.concat "|" (List.map hex_of_bytes ks)
+let wal_summary (data : bytes) : string =
+  let (recs, e) = read_segment_lazy hash_fn (S (length data)) data in
+  let consumed = List.fold_left (fun a (_, p) -> a + 44 + int_of_nat (length p)) 0 recs in
+  let total = int_of_nat (length data) in
+  let rem = total - consumed in
+  let tail = match e with
+    | Some RShortPayload -> "partial-payload"
+    | Some RChecksum -> "badsum"
+    | Some _ -> "error"
+    | None ->
+      if rem = 0 then "clean"
+      else if rem < 44 then Printf.sprintf "partial-header:%d" rem
+      else begin
+        let rest = skipn (nat_of_int consumed) data in
+        let ver = le_dec (firstn (nat_of_int 8) rest) in
+        if ver = N0 then
+          (if rem = 44 && List.for_all (fun b -> b = N0) rest then "sentinel" else Printf.sprintf "marker+%d" (rem - 44))
+        else "zero-len"
+      end in
+  Printf.sprintf "[%s] tail=%s" (String.concat ";" (List.map (fun (v, p) -> decimal_of_n v ^ ":" ^ op_summary p) recs)) tail
+let snapshot_summary (data : bytes) : string =
+  match dec_snapshot data with
+  | Err _ -> "bad"
+  | Ok (ver, es) ->
+    let used = List.fold_left (fun a (k, _) -> a + 44 + int_of_nat (length k)) 12 es in
+    Printf.sprintf "ver=%s [%s]%s" (decimal_of_n ver)
+      (String.concat ";" (List.map (fun (k, it) -> hex_of_bytes k ^ "=" ^ hex_of_bytes it.ihash ^ ":" ^ decimal_of_n it.isize) es))
+      (if used = int_of_nat (length data) then "" else " trailing")
+
 let dump_fs (out : Buffer.t) (prefix : string) (s : fs) (with_sync : bool) =
-  let lines = List.map (fun (p, f) ->
+  let lines = List.concat_map (fun (p, f) ->
     let body = if is_settings p then settings_str f.fdata
-      else (match p with PStaging _ -> "staged" | _ -> show_content (string_of_bytes f.fdata)) in
+      else (match p with
+            | PStaging _ -> "staged"
+            | PCas comps ->
+              let ok = (match parse_path comps with Some h -> h = hash_fn f.fdata | None -> false) in
+              show_content (string_of_bytes f.fdata) ^ (if ok then " hash=ok" else " hash=BAD")
+            | _ -> show_content (string_of_bytes f.fdata)) in
     let sy = if with_sync then Printf.sprintf " synced=%d" (int_of_nat f.fsynced) else "" in
-    Printf.sprintf "%sF %s %s%s\n" prefix (path_str p) body sy) s.files in
+    let extra = match p with
+      | PWal _ -> [Printf.sprintf "%sL %s %s\n" prefix (path_str p) (wal_summary f.fdata)]
+      | PIndex -> [Printf.sprintf "%sS index %s\n" prefix (snapshot_summary f.fdata)]
+      | _ -> [] in
+    Printf.sprintf "%sF %s %s%s\n" prefix (path_str p) body sy :: extra) s.files in
   List.iter (Buffer.add_string out) (List.sort compare lines)
 
 (* ---------- case parsing ---------- *)
@@ -214,17 +263,17 @@ let parse_line (cfg : config ref) (l : string) : line option =
   | [] -> None
   | t :: _ when t.[0] = '#' -> None
   | "cfg" :: kvs -> Some (LCfg kvs)
-  | ["put"; k] -> Some (LOp (l, OpPut (bytes_of_hex k, [])))
-  | ["put"; k; cs] -> Some (LOp (l, OpPut (bytes_of_hex k, parse_chunks cs)))
-  | ["abort"; k] -> Some (LOp (l, OpAbort (bytes_of_hex k, [])))
-  | ["abort"; k; cs] -> Some (LOp (l, OpAbort (bytes_of_hex k, parse_chunks cs)))
-  | ["remove"; k] -> Some (LOp (l, OpRemove (bytes_of_hex k)))
+  | ["put"; k] -> Some (LOp (l, OpPut (key_of k, [])))
+  | ["put"; k; cs] -> Some (LOp (l, OpPut (key_of k, parse_chunks cs)))
+  | ["abort"; k] -> Some (LOp (l, OpAbort (key_of k, [])))
+  | ["abort"; k; cs] -> Some (LOp (l, OpAbort (key_of k, parse_chunks cs)))
+  | ["remove"; k] -> Some (LOp (l, OpRemove (key_of k)))
   | ["remove_range"; a; b] -> Some (LOp (l, OpRemoveRange (parse_bound a, parse_bound b)))
   | ["checkpoint"] -> Some (LOp (l, OpCheckpoint))
-  | ["get"; k] -> Some (LOp (l, OpGet (bytes_of_hex k)))
-  | ["size"; k] -> Some (LOp (l, OpGetSize (bytes_of_hex k)))
-  | ["range"; k; a; b] -> Some (LOp (l, OpGetRange (bytes_of_hex k, n_of_decimal a, n_of_decimal b)))
-  | ["reader"; k] -> Some (LOp (l, OpGetReader (bytes_of_hex k)))
+  | ["get"; k] -> Some (LOp (l, OpGet (key_of k)))
+  | ["size"; k] -> Some (LOp (l, OpGetSize (key_of k)))
+  | ["range"; k; a; b] -> Some (LOp (l, OpGetRange (key_of k, n_of_decimal a, n_of_decimal b)))
+  | ["reader"; k] -> Some (LOp (l, OpGetReader (key_of k)))
   | ["iter"] -> Some (LOp (l, OpIter))
   | ["riter"; a; b] -> Some (LOp (l, OpRange (parse_bound a, parse_bound b)))
   | ["stats"] -> Some (LOp (l, OpStats))
@@ -329,12 +378,12 @@ let recovery (out : Buffer.t) (cfg : config) (keys : string list) (img : fs) =
      Buffer.add_string out (Printf.sprintf "V entries:%s\n" (entries_str i.km));
      Buffer.add_string out (Printf.sprintf "V %s\n" (out_str (OutBlobs i.rc)));
      Buffer.add_string out (Printf.sprintf "V %s\n" (out_str (OutStats (i.ub, i.tb, i.ssz))));
-     List.iter (fun k -> Buffer.add_string out (Printf.sprintf "V get %s -> %s\n" k (out_str (run (OpGet (bytes_of_hex k)))))) keys;
+     List.iter (fun k -> Buffer.add_string out (Printf.sprintf "V get %s -> %s\n" k (out_str (run (OpGet (key_of k)))))) keys;
      (match keys with
       | k :: _ ->
         let probe = bytes_of_string "probe-after-recovery" in
-        let r1 = run (OpPut (bytes_of_hex k, [probe])) in
-        let r2 = (match run (OpGet (bytes_of_hex k)) with OutBytes (Some b) -> b = probe | _ -> false) in
+        let r1 = run (OpPut (key_of k, [probe])) in
+        let r2 = (match run (OpGet (key_of k)) with OutBytes (Some b) -> b = probe | _ -> false) in
         Buffer.add_string out (Printf.sprintf "V probe put=%s readback=%b\n" (out_str r1) r2)
       | [] -> ());
      ignore (run OpClose);
